@@ -130,13 +130,21 @@ func checkC12(c *Ctx) {
 	if dv == nil || dfp == nil || len(dv.AnonFuncs) == 0 {
 		c.anchorMissing("PASS-orphans-deleted", "deleteVersion callback / deleteFromPruning")
 	} else {
+		// a deletion of the orphan's OWN storage key (built from its node key), as opposed to the
+		// additional clean-up of a legacy-root alias (built from its hash)
+		ownKey := func(in ssa.Instruction) bool {
+			if !callTo(dfp)(in) {
+				return false
+			}
+			return strings.Contains(roleOf(l, callCommon(in).Args[1], "", 0), "GetKey(")
+		}
 		for _, cb := range dv.AnonFuncs {
-			q := mustState(cb, false, callTo(dfp), nil)
+			q := mustState(cb, false, ownKey, nil)
 			ok := true
 			for _, r := range returnsOf(cb) {
 				v := stripTrivial(retVal(r, 0))
-				// `return ndb.deleteFromPruning(...)` passes it by construction
-				if call, isCall := v.(*ssa.Call); isCall && predStatic(dfp)(&call.Call) {
+				// `return ndb.deleteFromPruning(own key)` passes it by construction
+				if call, isCall := v.(*ssa.Call); isCall && ownKey(call) {
 					continue
 				}
 				if errNilness(v, r.Block(), 0) > 0 {
@@ -146,7 +154,7 @@ func checkC12(c *Ctx) {
 					ok = false
 				}
 			}
-			c.decide("PASS-orphans-deleted", l.fname(cb)+" deletes every orphan", l.pos(cb.Pos()), ok, "every non-error return passes deleteFromPruning", "the orphan callback can return success without deleting the orphan: unreachable nodes accumulate")
+			c.decide("PASS-orphans-deleted", l.fname(cb)+" deletes every orphan", l.pos(cb.Pos()), ok, "every non-error return passes a deletion of the orphan's own key", "the orphan callback can return success without deleting the orphan's own key (e.g. after only the legacy alias was removed): unreachable nodes accumulate")
 		}
 	}
 	// (3)
